@@ -87,6 +87,14 @@ OpVerdict(s) ==
                 IF o.o # "val" \/ ~Has(o, "s") THEN "no;num-op-concatenation-failed"
                 ELSE LET T(x) == IF DecNorm(x).sg = 0 THEN {<<48>>, <<45, 48>>} ELSE {DecText(x)} IN
                      IF \E a \in T(s.x), b \in T(s.y) : o.s = a \o b THEN "ok" ELSE "no;num-op-wrong-string-form"
+           \* O7: [x..y] lists the integers from x to y (counted here): non-integer bounds and more than ten million items are errors
+           [] s.op = ".." ->
+                LET IsInt(d) == DecIsZero(d) \/ DecNorm(d).e >= 0
+                    sz == DecAdd(DecSub(s.ye, s.xe), Dec(1, <<1>>, 0))
+                IN  IF ~IsInt(s.xe) \/ ~IsInt(s.ye) THEN (IF o.o = "err" THEN "ok" ELSE "no;num-op-range-with-non-integer-bound")
+                    ELSE IF DecLt(s.ye, s.xe) THEN (IF hasNum /\ DecIsZero(o.xe) THEN "ok" ELSE "no;num-op-range-not-empty")
+                    ELSE IF DecLt(Dec(1, <<1>>, 7), sz) THEN (IF o.o = "err" THEN "ok" ELSE "no;num-op-range-limit-not-reported")
+                    ELSE IF hasNum /\ DecSame(o.xe, sz) THEN "ok" ELSE "no;num-op-range-wrong-size"
            [] OTHER -> "inc:operator outside TraceNum"
 
 \* C11 (J2): a JSON number as a program denotes the double nearest to the decimal it spells
